@@ -65,6 +65,7 @@ type Result struct {
 	Deadlocks int               `json:"deadlocks"`
 	Known     map[string]int    `json:"known,omitempty"`
 	OutHash   string            `json:"out_hash,omitempty"`
+	RaceText  string            `json:"race_text,omitempty"`
 }
 
 type ReplayFile struct {
@@ -258,8 +259,11 @@ func addRuntimeSeam(overlay, ovDir string) {
 	patch("select.go", "j := cheaprandn(uint32(norder + 1))", "j := verifRandn(uint32(norder + 1))")
 	patch("time.go", "t.rand = cheaprand()", "t.rand = verifRand()")
 	// race builds randomize the run queue (randomizeScheduler = raceenabled): same stream
-	patchN("proc.go", []string{"next && randn(2) == 0", "\t\t\tj := cheaprandn(i + 1)\n\t\t\tbatch[i], batch[j]", "\t\t\tj := cheaprandn(i + 1)\n\t\t\tpp.runq[off(i)], pp.runq[off(j)]"},
-		[]string{"next && verifRandn(2) == 0", "\t\t\tj := verifRandn(i + 1)\n\t\t\tbatch[i], batch[j]", "\t\t\tj := verifRandn(i + 1)\n\t\t\tpp.runq[off(i)], pp.runq[off(j)]"})
+	patchN("proc.go", []string{"\trunqput(mp.p.ptr(), gp, next)\n\twakep()\n\treleasem(mp)\n", "\t\trunqput(pp, newg, true)\n\n\t\tif mainStarted {", "next && randn(2) == 0", "\t\t\tj := cheaprandn(i + 1)\n\t\t\tbatch[i], batch[j]", "\t\t\tj := cheaprandn(i + 1)\n\t\t\tpp.runq[off(i)], pp.runq[off(j)]"},
+		[]string{"\trunqput(mp.p.ptr(), gp, next)\n\tverifMaybePreempt(mp)\n\twakep()\n\treleasem(mp)\n", "\t\trunqput(pp, newg, true)\n\t\tverifMaybePreempt(getg().m)\n\n\t\tif mainStarted {", "next && verifRandn(2) == 0", "\t\t\tj := verifRandn(i + 1)\n\t\t\tbatch[i], batch[j]", "\t\t\tj := verifRandn(i + 1)\n\t\t\tpp.runq[off(i)], pp.runq[off(j)]"})
+	// a goroutine preempted by the seam goes to the tail of the local run queue (as runtime.goyield does), not to the
+	// global one: when the global queue is polled depends on schedtick, which background goroutines advance in real time
+	patch("stack.go", "\t\tgopreempt_m(gp) // never return\n", "\t\tif gp.bubble != nil && verifPreemptOneIn != 0 {\n\t\t\tgoyield_m(gp) // never return\n\t\t}\n\t\tgopreempt_m(gp) // never return\n")
 	add, err := os.ReadFile(filepath.Join(verifDir, "overlayfiles", "runtime", "zz_verif_rand.go.txt"))
 	must(err)
 	dst := filepath.Join(ovDir, "runtime_zz_verif_rand.go")
@@ -494,6 +498,9 @@ func runWorker(bin string, env []string, outFile string, timeout time.Duration) 
 			data, _ := os.ReadFile(f)
 			wo.raceLog += string(data)
 		}
+	}
+	if wo.res != nil && wo.res.RaceText != "" {
+		wo.raceLog = wo.res.RaceText // the violating run's reports only (earlier ones were races inside dependencies)
 	}
 	if data, err := os.ReadFile(outFile + ".hang"); err == nil {
 		wo.hang = string(data)
